@@ -8,7 +8,7 @@ let id = "C05"
 let rule = "source reply streams: 0..3 keep-alive newlines, +FULLRESYNC in random letter case, run ids (40 hex / short with ?-_), offsets up to 2^61, 0..7 \
 newlines before $n, n in {1..50, 8192k-1..8192k+1, powers of two, random < 70000} (thorough: around and above 32 MiB), 0..50000 command bytes, cut into TCP \
 segments at/around the end of the reply line, the end of the size line, the RDB end, +-8192 and random points (1/8: byte-by-byte start), 1-4 ms pauses; \
-consumer read sizes 1..65536 with pauses; 1/5 of the cases in dump mode (SYNC, file output); real sendPSyncCmd / dbDumper.dump against the scripted fake \
+consumer read sizes 1..65536 with pauses; 1/5 of the cases in dump mode (SYNC, file output; a fifth of those 6..7 MB, below the writer's buffer); real sendPSyncCmd / dbDumper.dump against the scripted fake \
 source over TCP; non-trivial = the segmentation separates the RDB end from the stream start or cuts inside the header; distinct by wire line"
 
 let gen st tier =
@@ -25,7 +25,10 @@ let corpus = [
     conns = [ { hdr = "+FULLRESYNC abc 1000\r\n$9000\r\n"; acts = [ "S8000"; "P20"; "S1130"; "P20"; "S1000"; "P150"; "D" ] };
               { hdr = "+CONTINUE\r\n"; acts = [ "S511"; "P100" ] } ]; quiet = true; note = "commands behind the RDB tail, then a dropped link" };
   { mode = "dump"; start = 0; runid = ""; nrdb = 8193; seed_r = 3; ncmd = 9; seed_c = 4; chunk = 1; pause_us = 0;
-    conns = [ { hdr = "\n\n$8193\r\n"; acts = [ "S3"; "S8198"; "S9" ] } ]; quiet = true; note = "dump" } ]
+    conns = [ { hdr = "\n\n$8193\r\n"; acts = [ "S3"; "S8198"; "S9" ] } ]; quiet = true; note = "dump" };
+  (* a 6.3 MB dump: smaller than the writer's buffer, so the whole file depends on the final flush before the dump returns *)
+  { mode = "dump"; start = 0; runid = ""; nrdb = 6291456; seed_r = 5; ncmd = 41; seed_c = 6; chunk = 4096; pause_us = 0;
+    conns = [ { hdr = "$6291456\r\n"; acts = [ "S1000000"; "S2000000"; "S4000000" ] } ]; quiet = true; note = "6 MiB dump" } ]
 
 let to_line = Srcgen.to_line
 let show = Srcgen.show
